@@ -1,8 +1,104 @@
+import Qentem.Model.StrToNum
+import Qentem.Model.Round
 import Qentem.Driver.Proto
 namespace Qentem.Driver.StrToNum
-open Qentem.Driver
+open Qentem.Driver Qentem.StrToNum Qentem.Round
 
-/-- Stub: replaced by the area's model driver. `op` is the first token of the line. -/
-def handle (_op : String) (_args : List String) : String := "bad-op"
+def hex16 (n : Nat) : String :=
+  let s := String.ofList (Nat.toDigits 16 n)
+  String.ofList (List.replicate (16 - s.length) '0') ++ s
+
+def hexVal (c : Char) : Option Nat :=
+  if '0' ≤ c ∧ c ≤ '9' then some (c.toNat - 48)
+  else if 'a' ≤ c ∧ c ≤ 'f' then some (c.toNat - 87)
+  else if 'A' ≤ c ∧ c ≤ 'F' then some (c.toNat - 55) else none
+
+def parseHex (s : String) : Option Nat :=
+  if s.isEmpty then none else
+  s.toList.foldlM (fun a c => (hexVal c).map (fun v => a * 16 + v)) 0
+
+def showRes : Option Res → Bool → String
+  | none, _ => "FAULT oob-read"
+  | some r, withOff => s!"{r.kind.code} {hex16 r.bits} " ++ (if withOff then toString r.offset else "-")
+
+/-- Practicality only: an exponent beyond `2000 + #digits` is replaced by that bound. The mantissa is
+`< 10^#digits`, so a non-zero value stays above `10^2000` (overflow) resp. below `10^-2000`
+(rounds to zero) and a zero stays zero: every quantity the oracle looks at is unchanged, but
+`10^4294967296` is never materialised. -/
+def clampExp (x : Numeral) : Numeral :=
+  let bound := 2000 + x.intDigits.length + x.fracDigits.length
+  if digitsVal x.expDigits > bound then
+    { x with expDigits := (Nat.toDigits 10 bound).map (fun c => c.toNat - 48) }
+  else x
+
+/-- Verdict of the C09 property (spec definitions of `Model/Round.lean` only) on what an
+implementation returned for `text` = `content[offset, end)`: kind code, 64-bit pattern, units consumed.
+`ok …` / `skip …` / `FAIL <key> …`. -/
+def oracle (text : List Nat) (kind bits consumed : Nat) : String :=
+  match classify text with
+  | .other => "skip other"
+  | .leadingZeros => if kind = 0 then "ok rejected leading-zeros" else "FAIL malformed-accepted leading-zeros"
+  | .loneDot => if kind = 0 then "ok rejected lone-dot" else "FAIL malformed-accepted lone-dot"
+  | .repeatedDot => if kind = 0 then "ok rejected repeated-dot" else "FAIL malformed-accepted repeated-dot"
+  | .emptyExponent => if kind = 0 then "ok rejected empty-exponent" else "FAIL malformed-accepted empty-exponent"
+  | .numeral x0 len =>
+    let x := clampExp x0
+    let (n, d) := x.magFrac
+    if kind ≠ 0 ∧ consumed ≠ len then s!"FAIL not-consumed consumed={consumed} numeral={len}" else
+    let v := digitsVal x.intDigits
+    if x.isIntegerShape ∧ !x.neg ∧ v < 2 ^ 64 then
+      (if kind = 2 ∧ bits = v then "ok natural" else "FAIL natural-inexact")
+    else if x.isIntegerShape ∧ x.neg ∧ v = 0 then
+      (if kind = 1 ∧ bits = 2 ^ 63 then "ok negative-zero" else "FAIL negative-zero")
+    else if x.isIntegerShape ∧ x.neg ∧ v ≤ 2 ^ 63 then
+      (if kind = 3 ∧ bits = 2 ^ 64 - v then "ok integer" else "FAIL integer-inexact")
+    else
+      let expected := nearestMag n d
+      if kind = 0 then
+        (if exceedsMaxFinite n d then "ok rejected overflow"
+         else if belowMinSubnormal n d then "ok rejected underflow"
+         else "FAIL wellformed-rejected")
+      else if kind = 2 then
+        (if !x.neg ∧ n = bits * d then "ok natural-for-real-shape" else "FAIL kind-natural-inexact")
+      else if kind = 3 then
+        (if x.neg ∧ bits ≥ 2 ^ 63 ∧ n = (2 ^ 64 - bits) * d then "ok integer-for-real-shape" else "FAIL kind-integer-inexact")
+      else
+        let mag := bits % 2 ^ 63
+        let sign := bits / 2 ^ 63
+        if (sign = 1) ≠ (x.neg = true) then "FAIL sign-lost"
+        else if mag ≥ infBits then
+          (if exceedsMaxFinite n d then "ok overflow nonfinite" else "FAIL nonfinite-for-finite-value")
+        else
+          let u := ulpDist mag expected
+          if u ≤ 1 then s!"ok real {u}"
+          else if exceedsMaxFinite n d then s!"FAIL overflow-finite ulp={u}"
+          else s!"FAIL beyond-one-ulp ulp={u}"
+
+/-- `s2n <w> <offset> <end> <units>`            → `<kind> <hex16> <offset>` | `FAULT oob-read`
+    `s2nlen <w> <units>`                       → `<kind> <hex16> -`
+    `s2noracle <text units> <kind> <hex16> <consumed>` → property verdict on an implementation result
+    `s2nnearest <text units>`                  → hex16 of the correctly rounded magnitude of the numeral prefix -/
+def handle (op : String) (args : List String) : String :=
+  match op, args with
+  | "s2n", [_w, o, e, u] =>
+    match o.toNat?, e.toNat?, parseNats u with
+    | some o, some e, some l => if e ≤ l.length ∧ o ≤ e then showRes (strToNum l o e) true else "bad-op"
+    | _, _, _ => "bad-op"
+  | "s2nlen", [_w, u] =>
+    match parseNats u with
+    | some l => showRes (strToNum l 0 l.length) false
+    | none => "bad-op"
+  | "s2noracle", [u, k, b, c] =>
+    match parseNats u, k.toNat?, parseHex b, c.toNat? with
+    | some l, some k, some b, some c => oracle l k b c
+    | _, _, _, _ => "bad-op"
+  | "s2nnearest", [u] =>
+    match parseNats u with
+    | some l =>
+      (match classify l with
+       | .numeral x _ => hex16 (nearestMag x.magFrac.1 x.magFrac.2)
+       | _ => "none")
+    | none => "bad-op"
+  | _, _ => "bad-op"
 
 end Qentem.Driver.StrToNum
